@@ -14,7 +14,7 @@ func init() { register("C05", checkC05) }
 
 func checkC05(c *Ctx) {
 	P := c.P
-	c.Rule("C05.R1", "HopServer.AuthorizeKey returns nil only when no error of any step was swallowed and akeys.Allowed(publicKey) was true for the caller's key (E1 decision table)")
+	c.Rule("C05.R1", "HopServer.AuthorizeKey returns nil only when Allowed(publicKey) was true for the caller's key on a list whose provenance on that path is the core parser applied, during this call, to a file derived from the user argument, with every fallible call on that chain found nil (E1 decision table + value provenance)")
 	c.Rule("C05.R2", "ParseAuthorizedKeys returns (nil, err) on any malformed line; Allowed is an equality scan against its argument; ParseDHPublicKey rejects wrong prefix, bad base64 and length != 32 (E1)")
 	c.Rule("C05.R3", "checkAuthorization admits (returns true / stores sess.user / writes the confirmation) only after AuthorizeKey==nil, or EnableAuthgrants and AuthorizeKeyAuthGrant==nil, for the same username and the transport-authenticated key; sess.start dispatches tubes only after it returned true (E1)")
 	c.Rule("C05.R4", "AuthorizeKeyAuthGrant succeeds only with EnableAuthgrants and a grant entry that RemoveAuthgrants deleted before returning it; the grant map is touched only by its two accessors (E1 + E4)")
@@ -31,31 +31,60 @@ func checkC05(c *Ctx) {
 		fs := newFailSet()
 		succ := 0
 		allowedID := hopID("core", "AuthorizedKeys", "Allowed")
+		parseID, parseFileID := hopID("core", "", "ParseAuthorizedKeys"), hopID("core", "", "ParseAuthorizedKeysFile")
 		ok := walkAll(c, "C05.R1", fn, func(p *Path) {
 			if !isSuccess(p) {
 				return
 			}
 			succ++
-			for _, sc := range swallowedErrors(p, nil) {
-				fs.add("fail-closed", "fail-open: AuthorizeKey returns success on a path where the error of "+describeCall(P, sc)+" is not nil-checked (an unreadable or malformed authorized_keys file would admit the key)", p.Exit(), p)
-			}
-			member := false
+			var member *pathCall
 			for _, pc := range callsOnPath(p) {
+				pc := pc
 				if calleeID(pc.call) == allowedID {
 					args := callArgs(&pc.call.Call)
-					if len(args) == 2 && paramIndex(fn, args[1]) == 2 {
+					if len(args) == 2 && paramIndex(fn, p.Resolve(args[1], pc.at)) == 2 {
 						if v, known := boolOnPath(p, pc.call); known && v {
-							member = true
+							member = &pc
 						}
 					}
 				}
 			}
-			if !member {
+			if member == nil {
 				fs.add("membership", "AuthorizeKey returns success on a path where Allowed(publicKey) was not found true for the caller's key", p.Exit(), p)
+				return
+			}
+			// the list consulted is the one parsed, during this call, from the file of this user:
+			// its provenance on the path passes through the core parser and ends in the user parameter,
+			// and every call on that chain that can fail was found to have succeeded.
+			p.throughCalls = true
+			calls, leaves := provenance(p, callArgs(&member.call.Call)[0], member.at)
+			p.throughCalls = false
+			parsed, forUser := false, false
+			last := len(p.Blocks) - 1
+			for _, call := range calls {
+				if id := calleeID(call); id == parseID || id == parseFileID {
+					parsed = true
+				}
+				if errorResultIndex(call.Call.Signature()) < 0 {
+					continue
+				}
+				if ev := errResultOf(call); ev == nil || p.Nilness(ev, last) != isNil {
+					fs.add("fail-closed", "fail-open: AuthorizeKey returns success on a path where the error of "+describeCall(P, call)+" is not nil-checked (an unreadable or malformed authorized_keys file would admit the key)", p.Exit(), p)
+				}
+			}
+			for _, l := range leaves {
+				if paramIndex(fn, l) == 1 {
+					forUser = true
+				}
+			}
+			if !parsed {
+				fs.add("provenance", "AuthorizeKey returns success on a path where the key list given to Allowed was not parsed from the authorized_keys file during this call ("+describeLeaves(P, leaves)+"): a key removed from the file can still be admitted", member.call, p)
+			} else if !forUser {
+				fs.add("provenance", "the authorized_keys file parsed by AuthorizeKey is not derived from its user argument", member.call, p)
 			}
 		})
 		if ok {
-			fs.report(c, "C05.R1", name, []string{"fail-closed", "membership"}, P.Pos(fn.Pos()), fmt.Sprintf("holds on all %d success paths", succ))
+			fs.report(c, "C05.R1", name, []string{"fail-closed", "membership", "provenance"}, P.Pos(fn.Pos()), fmt.Sprintf("holds on all %d success paths", succ))
 			c.Floor("C05.R1", "success paths of AuthorizeKey", succ, 1)
 		}
 	}
@@ -385,61 +414,7 @@ func c05R4(c *Ctx) {
 			fs.report(c, "C05.R4", name, []string{"enabled", "consumed"}, P.Pos(fn.Pos()), fmt.Sprintf("holds on all %d non-failing paths", succ))
 		}
 	}
-	// RemoveAuthgrants: nil error only after both lookups ok and delete(ags, key)
-	rm := P.Func("authgrants", "(*AuthgrantMapSync).RemoveAuthgrants")
-	if rm == nil {
-		c.Undecided("C05.R4", "authgrants.(*AuthgrantMapSync).RemoveAuthgrants", "function not found")
-	} else {
-		name := FuncName(rm)
-		c.Analysed(name)
-		fs := newFailSet()
-		succ := 0
-		ok := walkAll(c, "C05.R4", rm, func(p *Path) {
-			if !isSuccess(p) {
-				return
-			}
-			succ++
-			deleted := false
-			lookups := 0
-			p.ForEach(func(i int, ins ssa.Instruction) bool {
-				if call, ok := ins.(*ssa.Call); ok {
-					if b, ok := call.Call.Value.(*ssa.Builtin); ok && b.Name() == "delete" && len(call.Call.Args) == 2 && paramIndex(rm, call.Call.Args[1]) == 2 {
-						deleted = true
-					}
-				}
-				if ex, ok := ins.(*ssa.Extract); ok && ex.Index == 1 {
-					if lk, ok := ex.Tuple.(*ssa.Lookup); ok && lk.CommaOk {
-						if v, known := boolOnPath(p, ex); known && v && paramIndex(rm, lk.Index) == 2 {
-							// the entry found under the key argument, in the map stored under the user argument
-							inner := strip(lk.X)
-							if e0, ok := inner.(*ssa.Extract); ok && e0.Index == 0 {
-								if l1, ok := e0.Tuple.(*ssa.Lookup); ok && l1.CommaOk && paramIndex(rm, l1.Index) == 1 {
-									if okv := extractIdx(l1, 1); okv != nil {
-										if v1, known1 := boolOnPath(p, okv); known1 && v1 {
-											lookups = 2
-										}
-									}
-								}
-							} else if l1, ok := inner.(*ssa.Lookup); ok && !l1.CommaOk && paramIndex(rm, l1.Index) == 1 {
-								lookups = 2 // m[user][key]: a missing user yields a nil map, whose lookup reports !ok
-							}
-						}
-					}
-				}
-				return true
-			})
-			if !deleted {
-				fs.add("single-use", "RemoveAuthgrants returns grants without deleting the entry for that key (grants would be reusable)", p.Exit(), p)
-			}
-			if lookups < 2 {
-				fs.add("exact-entry", "RemoveAuthgrants succeeds without both the user and the key lookup having found an entry", p.Exit(), p)
-			}
-		})
-		if ok {
-			fs.report(c, "C05.R4", name, []string{"single-use", "exact-entry"}, P.Pos(rm.Pos()), fmt.Sprintf("holds on all %d success paths", succ))
-			c.Floor("C05.R4", "success paths of RemoveAuthgrants", succ, 1)
-		}
-	}
+	removeAuthgrantsRule(c, "C05.R4")
 	// who touches the grant map
 	agMap := P.Field("authgrants", "AuthgrantMapSync", "agMap")
 	if agMap == nil {
@@ -517,5 +492,157 @@ func c05R5(c *Ctx) {
 			c.Check(known && v, "C05.R5", "enabled:"+shortCallee(cs.Common())+"@"+FuncName(fn), P.InstrPos(cs), "only when EnableAuthgrants",
 				"AddAuthGrant stores a grant / trusted key without EnableAuthgrants having been found true")
 		}
+	}
+}
+
+// removeAuthgrantsRule (shared by C05.R4 and C07.R5): RemoveAuthgrants hands out grants only
+//   exact-entry: taken from agMap[user][key] for its own two arguments, and found there (comma-ok true,
+//                or the value found non-empty / non-nil on the path);
+//   single-use:  after delete(…, key) on the same path;
+//   atomic:      with the read and the delete inside one critical section of the map's lock, so that two
+//                concurrent admissions cannot both take the same grants.
+func removeAuthgrantsRule(c *Ctx, rule string) {
+	P := c.P
+	rm := P.Func("authgrants", "(*AuthgrantMapSync).RemoveAuthgrants")
+	if rm == nil {
+		c.Undecided(rule, "authgrants.(*AuthgrantMapSync).RemoveAuthgrants", "function not found")
+		return
+	}
+	name := FuncName(rm)
+	c.Analysed(name)
+	fs := newFailSet()
+	succ := 0
+	isLockOp := func(ins ssa.Instruction) string {
+		cc := callCommon(ins)
+		if cc == nil {
+			return ""
+		}
+		if _, isDefer := ins.(*ssa.Defer); isDefer {
+			return ""
+		}
+		f := calleeFunc(cc)
+		if f == nil || f.Pkg() == nil || f.Pkg().Path() != "sync" {
+			return ""
+		}
+		switch f.Name() {
+		case "Lock", "RLock":
+			return "lock"
+		case "Unlock", "RUnlock":
+			return "unlock"
+		}
+		return ""
+	}
+	ok := walkAll(c, rule, rm, func(p *Path) {
+		if !isSuccess(p) {
+			return
+		}
+		succ++
+		last := len(p.Blocks) - 1
+		r := p.Returns()
+		if r == nil || len(r.Results) == 0 {
+			return
+		}
+		p.throughCalls = true
+		_, _, nodes := provenanceNodes(p, resolveSpill(p, r.Results[0]), last)
+		p.throughCalls = false
+		// the key lookup whose X is the user lookup
+		var keyLookup *ssa.Lookup
+		for _, n := range nodes {
+			lk, ok := n.(*ssa.Lookup)
+			if !ok || paramIndex(rm, p.Resolve(lk.Index, last)) != 2 {
+				continue
+			}
+			p.throughCalls = true
+			_, _, inner := provenanceNodes(p, lk.X, last)
+			p.throughCalls = false
+			for _, m := range inner {
+				if l1, ok := m.(*ssa.Lookup); ok && paramIndex(rm, p.Resolve(l1.Index, last)) == 1 {
+					keyLookup = lk
+				}
+			}
+		}
+		found := false
+		if keyLookup != nil {
+			if keyLookup.CommaOk {
+				if okv := extractIdx(keyLookup, 1); okv != nil {
+					if v, known := boolOnPath(p, okv); known && v {
+						found = true
+					}
+				}
+			}
+			// or: a value that comes from that lookup was found non-empty / non-nil
+			fromLookup := func(v ssa.Value) bool {
+				if v == nil {
+					return false
+				}
+				p.throughCalls = true
+				_, _, ns := provenanceNodes(p, v, last)
+				p.throughCalls = false
+				for _, n := range ns {
+					if n == ssa.Value(keyLookup) {
+						return true
+					}
+				}
+				return false
+			}
+			lenOf := func(v ssa.Value) ssa.Value {
+				if call, ok := strip(v).(*ssa.Call); ok {
+					if b, ok := call.Call.Value.(*ssa.Builtin); ok && b.Name() == "len" && len(call.Call.Args) == 1 {
+						return call.Call.Args[0]
+					}
+				}
+				return nil
+			}
+			isZero := func(v ssa.Value) bool { k, ok := constInt(v); return ok && k == 0 }
+			isOne := func(v ssa.Value) bool { k, ok := constInt(v); return ok && k == 1 }
+			for key, val := range p.FactsAt(last) {
+				switch {
+				case key.op == token.EQL && key.y == nil && !val && fromLookup(key.x):
+					found = true // != nil
+				case key.op == token.EQL && key.y != nil && !val && ((isZero(key.y) && fromLookup(lenOf(key.x))) || (isZero(key.x) && fromLookup(lenOf(key.y)))):
+					found = true // len != 0
+				case key.op == token.LSS && val && isZero(key.x) && fromLookup(lenOf(key.y)):
+					found = true // 0 < len
+				case key.op == token.LSS && !val && isOne(key.y) && fromLookup(lenOf(key.x)):
+					found = true // !(len < 1)
+				}
+			}
+		}
+		if !found {
+			fs.add("exact-entry", "RemoveAuthgrants succeeds without the grants it returns having been found in agMap[user][key] for its own arguments", p.Exit(), p)
+		}
+		// delete(…, key) and the critical sections
+		deleted := false
+		epoch, held := 0, false
+		readEpoch, delEpoch := -1, -2
+		readHeld, delHeld := false, false
+		p.ForEach(func(i int, ins ssa.Instruction) bool {
+			switch isLockOp(ins) {
+			case "lock":
+				epoch++
+				held = true
+			case "unlock":
+				held = false
+			}
+			if keyLookup != nil && ins == ssa.Instruction(keyLookup) {
+				readEpoch, readHeld = epoch, held
+			}
+			if call, ok := ins.(*ssa.Call); ok {
+				if b, ok := call.Call.Value.(*ssa.Builtin); ok && b.Name() == "delete" && len(call.Call.Args) == 2 && paramIndex(rm, p.Resolve(call.Call.Args[1], i)) == 2 {
+					deleted = true
+					delEpoch, delHeld = epoch, held
+				}
+			}
+			return true
+		})
+		if !deleted {
+			fs.add("single-use", "RemoveAuthgrants returns grants without deleting the entry for that key (grants would be reusable)", p.Exit(), p)
+		} else if keyLookup != nil && (!readHeld || !delHeld || readEpoch != delEpoch) {
+			fs.add("atomic", "RemoveAuthgrants reads the grants it returns and deletes the entry in different critical sections of the map's lock: two concurrent admissions can both be handed the same single-use grants", p.Exit(), p)
+		}
+	})
+	if ok {
+		fs.report(c, rule, name, []string{"single-use", "exact-entry", "atomic"}, P.Pos(rm.Pos()), fmt.Sprintf("holds on all %d success paths", succ))
+		c.Floor(rule, "success paths of RemoveAuthgrants", succ, 1)
 	}
 }
